@@ -66,6 +66,31 @@ def chars (j : Json) : Except String (List Char) := do
   let l ← (← j.getArr?).toList.mapM (·.getNat?)
   pure (l.map Char.ofNat)
 
+def jTok (j : Json) : Except String (Option Tok) := do
+  if j.isNull then return none
+  let a ← j.getArr?
+  if h : a.size = 4 then
+    return some ⟨"VAR", ['x'], ← a[0].getNat?, ← a[1].getNat?, ← a[2].getNat?, ← a[3].getNat?⟩
+  else throw "tok"
+
+def jOptNat (j : Json) : Except String (Option Nat) := do
+  if j.isNull then return none else return some (← j.getNat?)
+
+/-- "A" = key absent, null = present with None, n = present -/
+def jKey (j : Json) : Except String (Option (Option Nat)) := do
+  match j with
+  | .str _ => return none
+  | _ => return some (← jOptNat j)
+
+def jMeta (j : Json) : Except String Meta := do
+  let a ← j.getArr?
+  if h : a.size = 4 then return ⟨← jKey a[0], ← jKey a[1], ← jKey a[2], ← jKey a[3]⟩ else throw "meta"
+
+def showKey : Option (Option Nat) → String
+  | none => "\"A\""
+  | some none => "null"
+  | some (some n) => toString n
+
 def handle (cfg : Cfg) (line : String) : Except String (Cfg × String) := do
   let j ← Json.parse line
   match ← jStr j "op" with
@@ -88,6 +113,35 @@ def handle (cfg : Cfg) (line : String) : Except String (Cfg × String) := do
     let sql : Sql := (s.map fun c => (⟨c, false, false, false, [c]⟩ : Ch)).toArray
     let ps := (List.range sql.size).map fun p => "[" ++ toString (lineOf sql p) ++ "," ++ toString (colOf sql p - crlfAdj sql p) ++ "]"
     return (cfg, "[" ++ ",".intercalate ps ++ "]")
+  | "raise" =>
+    let s ← chars (← j.getObjVal? "sql")
+    let tk ← jTok (← j.getObjVal? "token")
+    let cu ← jTok (← j.getObjVal? "curr")
+    let pv ← jTok (← j.getObjVal? "prev")
+    let ctx ← (← j.getObjVal? "ctx").getNat?
+    let e := raiseError s tk cu pv ctx
+    return (cfg, "[" ++ toString e.line ++ "," ++ toString e.col ++ "," ++ jsonStr e.startCtx ++ "," ++ jsonStr e.highlight ++ ","
+      ++ jsonStr e.endCtx ++ "," ++ jsonStr e.formatted ++ ",\"msg\"]")
+  | "meta" =>
+    let init ← jMeta (← j.getObjVal? "init")
+    let src ← j.getObjVal? "src"
+    let r ← match ← jStr src "kind" with
+      | "token" => do
+        match ← jTok (← src.getObjVal? "t") with
+        | some t => pure (updatePositions init (.token t))
+        | none => throw "token"
+      | "expr" => do
+        let o ← jMeta (← src.getObjVal? "other")
+        let extra ← jBool src "extra"
+        let empty := o.line.isNone && o.col.isNone && o.start.isNone && o.stop.isNone && !extra
+        pure (updatePositions init (.expr (if empty then none else some o)))
+      | "explicit" => do
+        let a ← (← src.getObjVal? "v").getArr?
+        if h : a.size = 4 then
+          pure (updatePositions init (.explicit (← jOptNat a[0]) (← jOptNat a[1]) (← jOptNat a[2]) (← jOptNat a[3])))
+        else throw "explicit"
+      | _ => throw "src"
+    return (cfg, "[" ++ ",".intercalate [showKey r.line, showKey r.col, showKey r.start, showKey r.stop] ++ "]")
   | _ => throw "unknown op"
 
 partial def loop (h : IO.FS.Stream) (cfg : Cfg) : IO Unit := do
